@@ -57,14 +57,28 @@ def dominating_def(cfg: CFG, fn: ast.AST, name: str, use: ast.AST) -> Optional[a
 # ---------------------------------------------------------------------------------------------
 
 
+ORDER_KEEPING = {"copy", "dropna", "fillna", "astype", "round", "reset_index", "rename", "assign", "drop"}
+
+
 def _frame_kind(cfg, fn, name: str, use: ast.AST, depth=0) -> Optional[str]:
-    """'train' / 'dev' for a rates frame: where does its argument come from?"""
-    if depth > 4:
+    """'train' / 'dev' (suffix '+sorted' when the rows were re-ordered by value on the way) for a
+    rates frame: where does its argument come from?"""
+    if depth > 6:
         return None
     d = dominating_def(cfg, fn, name, use)
     if d is None:
         return None
     txt = unparse(d)
+    # frame = frame.sort_values(...) / frame.copy() ...: follow the receiver
+    if isinstance(d, ast.Call) and isinstance(d.func, ast.Attribute) and isinstance(d.func.value, ast.Name):
+        meth = d.func.attr
+        if meth in ("sort_values", "sort_index") or meth in ORDER_KEEPING:
+            inner = _frame_kind(cfg, fn, d.func.value.id, d, depth + 1)
+            if inner is None:
+                return None
+            if meth in ("sort_values", "sort_index") and not inner.endswith("+sorted"):
+                return inner + "+sorted"
+            return inner
     if isinstance(d, ast.Call) and call_name(d) == "_printer" and d.args:
         a = d.args[0]
         if "association" in unparse(a) and "xagg" in unparse(a) and "xagg_dev" not in unparse(a):
@@ -124,6 +138,7 @@ def viability_condition(ctx, fi: FunctionInfo):
                     fk = _frame_kind(cfg, fn, frame, use)
                     if fk is None:
                         return None
+                    fk = fk.replace("+sorted", "")  # a per-row threshold does not depend on row order
                     if thr != "self.min_freq_mod":
                         return p_atom(f"FREQ_VS_{thr}_{fk}")
                     # canonical: thr <= freq  (freq >= thr)
@@ -159,6 +174,9 @@ def viability_condition(ctx, fi: FunctionInfo):
                         fk = _frame_kind(cfg, fn, frame, use)
                         if fk is None:
                             return None
+                        # on a frame re-ordered by value, shift(1) compares rank-adjacent groups, not
+                        # order-adjacent ones: a different (stronger) test => a different atom
+                        fk = fk.replace("+sorted", "_BY_RANK_NOT_BY_ORDER")
                         a = p_not(p_atom(f"DISTINCT_{fk}"))  # any(close) == not distinct
                         return p_not(a) if neg else a
                     return None
@@ -167,13 +185,23 @@ def viability_condition(ctx, fi: FunctionInfo):
                     sides = [unparse(arg.left), unparse(arg.comparators[0])]
                     frames = []
                     okf = True
+                    plain = []
                     for s in sides:
                         if s.endswith(".sort_values('target_rate').index"):
                             frames.append(s.split(".")[0])
+                        elif s.endswith(".index") and s.count(".") == 1:
+                            frames.append(s.split(".")[0])
+                            plain.append(s.split(".")[0])
                         else:
                             okf = False
                     if okf:
-                        kinds = {_frame_kind(cfg, fn, f, use) for f in frames}
+                        kinds_l = [_frame_kind(cfg, fn, f, use) for f in frames]
+                        if any(k is None for k in kinds_l):
+                            return None
+                        # a bare `.index` is only a ranking if that frame was sorted by target rate
+                        if any(not (_frame_kind(cfg, fn, f, use) or "").endswith("+sorted") for f in plain):
+                            return None
+                        kinds = {k.replace("+sorted", "") for k in kinds_l}
                         if kinds == {"train", "dev"}:
                             a = p_atom("RANKS")
                             return p_not(a) if neg else a
